@@ -12,8 +12,10 @@ VERIF = os.path.abspath(os.path.join(os.path.dirname(os.path.abspath(__file__)),
 REPO = os.environ.get("VERIF_REPO", "/repo")
 SPEC = os.path.join(VERIF, "spec")
 BUILD = os.path.join(SPEC, "build")
-WORK = os.path.join(VERIF, ".work")
-OUT = os.path.join(VERIF, "out")
+# runs against another tree (VERIF_REPO, detection experiments) get their own scratch and output directories
+_ALT = ("alt_" + hashlib.sha1(REPO.encode()).hexdigest()[:8]) if REPO != "/repo" else ""
+WORK = os.path.join(VERIF, ".work", _ALT) if _ALT else os.path.join(VERIF, ".work")
+OUT = os.path.join(VERIF, "out", _ALT) if _ALT else os.path.join(VERIF, "out")
 EVIDENCE = os.path.join(VERIF, "evidence")
 PY = "/venv/bin/python"
 TLA_JARS = "/opt/veriftools/tla/tla2tools.jar:/opt/veriftools/tla/CommunityModules-deps.jar"
@@ -223,6 +225,8 @@ def ensure_build():
 # evidence, findings, verdict printing
 # ---------------------------------------------------------------------------------------
 def write_evidence(pid, tier, level, coverage, wall, violations=0, assumptions=None):
+    if os.environ.get("VERIF_NO_EVIDENCE") == "1":  # detection runs against a mutated copy leave the evidence alone
+        return None
     os.makedirs(EVIDENCE, exist_ok=True)
     ev = {
         "property_id": pid,
